@@ -29,7 +29,6 @@ from jax2onnx.plugins.jax.lax._index_utils import _const_i64
 from jax2onnx.plugins.jax.numpy._common import get_orig_impl, make_jnp_primitive
 from jax2onnx.plugins.plugin_system import PrimitiveLeafPlugin, register_primitive
 
-
 _HISTOGRAM_PRIM: Final = make_jnp_primitive("jax.numpy.histogram")
 _HISTOGRAM_PRIM.multiple_results = True
 
@@ -344,7 +343,7 @@ class JnpHistogramPlugin(PrimitiveLeafPlugin):
         bins_dtype: np.dtype[Any] = np.dtype(
             getattr(bins_var.aval, "dtype", edge_dtype)
         )
-        compare_dtype: np.dtype[Any] = np.promote_types(a_dtype, edge_dtype)
+        compare_dtype: np.dtype[Any] = np.dtype(jnp.promote_types(a_dtype, edge_dtype))
 
         a_val = ctx.get_value_for_var(a_var, name_hint=ctx.fresh_name("histogram_a"))
         bins_val = ctx.get_value_for_var(
